@@ -592,6 +592,59 @@ def run(program, rep, tier):
             continue
         seen.add(target.name)
         analyse_walk(program, rep, target, world)
+    # a queried TYPE is never classified by a structural protocol: a class can
+    # satisfy Iterable / Sized / Container / ... through its metaclass (every
+    # Enum class does), and would then be taken for a collection of types
+    STRUCT = ('Iterable', 'Iterator', 'Sized', 'Container', 'Collection',
+              'Reversible', 'Sequence', 'Hashable', 'Callable')
+    DUNDER = ('__iter__', '__len__', '__contains__', '__getitem__',
+              '__reversed__')
+    todo = [program.method('World', n) for n in ENTRY]
+    scanned = []
+    while todo:
+        g = todo.pop()
+        if g is None or g in scanned:
+            continue
+        scanned.append(g)
+        for n in ast.walk(g.node):
+            if isinstance(n, ast.Call) and (dotted(n.func) or '').startswith(
+                    'self._'):
+                todo.append(program.resolve_method(world, n.func.attr))
+    for g in scanned:
+        ps = [a.arg for a in g.node.args.posonlyargs + g.node.args.args
+              + g.node.args.kwonlyargs
+              if (a.annotation is not None and norm(a.annotation).lower()
+                  .startswith(('type', 'optional[type', 'union[type')))
+              or (a.annotation is None and 'type' in a.arg.lower())]
+        for n in ast.walk(g.node):
+            if not (isinstance(n, ast.Call) and len(n.args) == 2
+                    and isinstance(n.args[0], ast.Name)
+                    and n.args[0].id in ps):
+                continue
+            fnm = dotted(n.func)
+            if fnm == 'isinstance':
+                alts = n.args[1].elts if isinstance(
+                    n.args[1], ast.Tuple) else [n.args[1]]
+                hit = [a for a in alts if (dotted(a) or '').split('.')[-1]
+                       in STRUCT]
+            elif fnm == 'hasattr':
+                hit = [n.args[1]] if isinstance(
+                    n.args[1], ast.Constant) and n.args[1].value in DUNDER \
+                    else []
+            else:
+                hit = []
+            if hit:
+                rep.bad('C06.match', g.where, n,
+                        f'the queried type is classified by {norm(n)}: a '
+                        'component class can satisfy this protocol through '
+                        'its metaclass (every Enum class is iterable, sized '
+                        'and a container) and is then taken apart as a '
+                        'collection of types - its own instances and '
+                        'subclasses are never matched', line=n.lineno)
+    rep.ok('C06.match', f'{world.module.relpath}:World',
+           ', '.join(g.name for g in scanned),
+           'no query classifies the queried type by a structural protocol',
+           nontrivial=False)
     # the walk must not be memoised: classes defined later must be found
     for fn in program.all_functions():
         cached = [d for d in fn.node.decorator_list if (dotted(
